@@ -472,7 +472,7 @@ def _run(ctx):
         cases.append((SP.to_json(t), lens))
         i += 1
     rnd.shuffle(cases)
-    for part in pmap(_w_e2e, chunks(cases, NPROCS * 3), nprocs=ctx.pick(6, NPROCS), chunksize=1):
+    for part in pmap(_w_e2e, chunks(cases, NPROCS * 3), serial=not ctx.thorough, chunksize=1):
         for tj, lens, f in part:
             s = SP.from_json(tj)
             fs = SP.fields_of(s)
